@@ -6,6 +6,7 @@ input tissue, compared node by node."""
 import os, sys, time, json, math
 import vlib
 import scenarios as SC
+import c14_pipeline as CP
 
 PID = "C14"
 NAMESPACE = "Simu.C14"
@@ -13,7 +14,7 @@ THEOREMS = ["comp_equivariant", "pipeline_equivariant", "iterate_equivariant", "
             "kernel_translate", "forces_translate", "node00_translate", "node01_translate", "single10_translate",
             "single11_translate", "pair10_translate", "pair11_translate", "edge_length_translate", "new_node_translate",
             "volume_translate", "area_translate", "normal_translate"]
-GEN = ["Kernel", "Integrator", "RemeshConsts", "Forces", "Geometry"]
+GEN = ["Kernel", "Integrator", "RemeshConsts", "Forces", "Geometry", "CellCycle"]
 SIZE = 1e-5
 STRICT_ITERS = 80     # connectivity must be identical up to this iteration; later flips of threshold decisions are rounding chaos
 
@@ -109,9 +110,21 @@ def run(ctx):
         ok, log = vlib.leanchecker("SimuVerif.Properties.C14")
         if not ok:
             V.fail_tie("proof", "leanchecker rejected SimuVerif.Properties.C14", log=log)
+    # the assembled single-free-cell iteration: theorems (Properties/C14Pipeline.lean) + bit-exact correspondence with the real solver
+    proofP = CP.prove_pipeline()
+    for f in proofP["failures"]:
+        V.fail_tie("proof", "%s: %s" % (f["theorem"], f["reason"]), errors=proofP["errors"][:5])
+    pipe = CP.run_pipeline(ctx)
+    for f in pipe["failures"][:3]:
+        if isinstance(f, dict) and f.get("input") is not None:
+            V.fail_input(f.get("what", str(f)), f.get("input"))
+        else:
+            V.fail_tie("correspondence", "assembled iteration: %s" % (f.get("what", f) if isinstance(f, dict) else f))
+    for d in pipe["disagreements"][:3]:
+        V.fail_tie("correspondence", "assembled single-cell iteration differs from the real solver: %s" % (json.dumps(d)[:400]))
     r = vlib.Rng(seed)
     exe, rebuilt = SC.build("asan")
-    wide = tier == "thorough" or not proof["ok"]
+    wide = tier == "thorough" or not (proof["ok"] and proofP["ok"])
     kinds = ["single", "separated", "adhering", "overlapping-mixed"]
     evaluations = 0
     distinct = set()
@@ -158,12 +171,13 @@ def run(ctx):
                 samples.append({"tissue": kind, "translation": t, "iterations": iters, "cells": ref[0]["ncells"] if ref else None})
     rcode, nviol = V.finish()
     cov = {
-        "obligations": proof["obligations"], "discharged": proof["discharged"],
+        "obligations": proof["obligations"] + proofP["obligations"], "discharged": proof["discharged"] + proofP["discharged"],
         "checker_cmd": "lake build SimuVerif.Properties.C14 SimuVerif.Audit.C14 (+ leanchecker in the thorough tier)",
         "trusted_base": vlib.TRUSTED_COMMON + [
-            "partial: the stage theorems are not assembled into one executable model of solver::run_iteration; the broad phase (grid re-anchored by the translation) is covered by C06's completeness theorem, not by an equivariance theorem",
+            "partial: the stages are assembled into one executable model of solver::run_iteration (bit-identical to the real solver, cellRun_translate proved) for a single free cell whose mesh stays inside the refinement band; for interacting tissues only the stage theorems and the generic composition are proved; the broad phase (grid re-anchored by the translation) is covered by C06's completeness theorem, not by an equivariance theorem",
             "rounding is run-time only: allowed deviation per node = size*(1e-8 + iters*(20 eps (r+10) + 5 eps r^3)), r = offset/size <= 1e3 (the r^3 term is the cancellation of the volume determinants far from the origin)"],
-        "theorems": proof["axioms"], "proof_failures": proof["failures"], "translator": {k: v.get("sha256", v.get("error")) for k, v in gen.items()},
+        "theorems": dict(list(proof["axioms"].items()) + list(proofP["axioms"].items())), "proof_failures": proof["failures"] + proofP["failures"],
+        "assembled_single_cell_iteration": pipe.get("stats"), "translator": {k: v.get("sha256", v.get("error")) for k, v in gen.items()},
         "evaluations": evaluations, "distinct_nontrivial": len(distinct),
         "rule": "pairs of real solver runs (generated tissues: single cell, separated, adhering, overlapping cells of mixed types; 40-300 iterations, deterministic parameters) that differ by a translation of the input file (offset/size 1e-2 .. 1e3, random directions, one straddling the origin); distinct = distinct (tissue, offset ratio, swap flag)",
         "worst_deviation_over_size_by_ratio": worst_by_ratio, "late_connectivity_divergences_after_iteration_%d" % STRICT_ITERS: late_divergences, "repo_objects_rebuilt": rebuilt, "samples": samples,
